@@ -293,6 +293,8 @@ def _validate_extern(it, a, k):
     ok = it.path.choose([(True, True), (False, True)], "jsonschema.validate:ok")
     it.ghost["valid"] = ok
     if not ok:
+        it.ghost["any_invalid"] = True
+    if not ok:
         raise PyExc(it.make_exc(it.resolve_exc_class("ValidationError", None), ()))
     return None
 
@@ -333,7 +335,7 @@ SELECT = {
                                                 f"(code_matches(to_str(k), {RS}) if {NOT_DEFAULT} else not any(code_matches(to_str(k2), {RS}) for k2 in {RESP} if k2 != 'default')) for k in {RESP}))",
     "exact_code_wins": f"all(implies({NOT_DEFAULT} and to_str(k) == to_str({RS}), ghost('selected') is {RESP}[k]) for k in {RESP})",
 }
-VR_GHOST = {"selected": "none", "schema": None, "validated": None, "valid": None, "parsed": None, "documented": [], "asked_ct": "not-asked"}
+VR_GHOST = {"selected": "none", "schema": None, "validated": None, "valid": None, "any_invalid": False, "parsed": None, "documented": [], "asked_ct": "not-asked"}
 # a code matches itself (complete enumeration, stand-in); the preconditions of the lookup helper
 VR_REQUIRES = [f"code_matches(to_str({RS}), {RS})", f"not code_matches('default', {RS})", f"distinct_str_keys({RESP})"]
 SelfV = Obj(OAS + "BaseOpenAPISchema", validator_cls=Opq("ValidatorCls"))
@@ -441,6 +443,43 @@ R.contract(
         "schema_of_the_chosen_media_type": "(result[1] == conv(ghost('option')['schema'], 'nullable', True, False)) if (ghost('option') is not None and 'schema' in ghost('option')) else (result[1] is None)",
     },
     bounded_note="up to 2 documented media types",
+)
+
+# ------------------------------------------------------------------------------------------------- response_headers_conformance: missing required headers and schema-violating values
+HeaderDef = DictOf(optional={"required": Bool, "schema": Opq("HeaderSchema")})
+R.contract(OAS + "BaseOpenAPISchema.get_headers", args={"self": Opq("OASchema"), "operation": Opq("Any"), "response": Opq("Any")}, trusted=True,
+           returns=lambda it, env: it.path.choose([(None, True), ((fresh_opaque(it, "Scopes"), KeyedDict(Str, HeaderDef, sizes=(0, 1, 2)).make(it, it.path.fresh("defined_headers"))), True)], "documented-headers"),
+           effects={"defined": "result[1] if result is not None else None"}, note="(scopes, the `headers` of the response definition selected for the status code): _find_response_definition contract")
+R.contract(CK + "_coerce_header_value", args={"value": Str, "schema": Opq("Any")}, returns=Opq("Coerced"), pure=True, trusted=True, note="the header text read as the declared primitive type")
+for _cls in ("schemathesis.specs.openapi.parameters:OpenAPI30Parameter", "schemathesis.specs.openapi.parameters:OpenAPI20Parameter"):
+    R.contract(_cls, abstract_only=True, args={"definition": Opq("Any")}, returns=lambda it, env: __import__("pyvc.values", fromlist=["VObj"]).VObj(it.resolve_class("spec:HeaderParameter"), {"definition": env["definition"]}),
+               note="parameter wrapper of the header definition")
+R.nominal_methods["spec:HeaderParameter"] = {"as_json_schema": lambda it, obj, a, k: it.pure_named("header_schema", obj.fields["definition"].get("schema")) if False else obj.fields["definition"].get("schema", None)}
+R.contract("schemathesis.openapi.checks:MissingHeaders", abstract_only=True, args={}, returns=lambda it, env: it.make_exc(it.resolve_exc_class("schemathesis.openapi.checks:MissingHeaders", None), ()),
+           effects={"reported_missing": "missing_headers"}, note="failure object constructor")
+CaseH = Obj("schemathesis.generation.case:Case", operation=Obj("schemathesis.schemas:APIOperation", label=Str,
+            schema=Obj(OAS + "OpenApi30", header_required_field=Const("required"), validator_cls=Opq("ValidatorCls"), output_config=Opq("OutputConfig"))))
+RespH = Obj("schemathesis.core.transport:Response", status_code=IntRange(100, 599), headers=KeyedDict(Str, ListOf(Str, [1]), sizes=(0, 1, 2)))
+MISSING = "[h for h in ghost('defined') if ghost('defined')[h].get('required', False) is True and lower(h) not in response.headers]"
+R.contract(
+    CK + "response_headers_conformance",
+    prop="C04",
+    args={"ctx": Opq("CheckContext"), "response": RespH, "case": CaseH},
+    ghost={"defined": None, "validated": None, "valid": None, "any_invalid": False, "reported_missing": None},
+    raises=["Failure", "FailureGroup"],
+    ensures={
+        # a response that lacks a required documented header is never passed
+        "passes_only_if_no_required_header_is_missing": "implies(ghost('defined') is not None and not unexpected_method_case(case), length(" + MISSING + ") == 0)",
+        "passes_only_if_validated_headers_are_valid": "not ghost('any_invalid')",
+    },
+    raises_ensures={
+        # a conforming response never yields a failure
+        "fails_only_if_a_required_header_is_missing_or_a_value_is_invalid": "ghost('defined') is not None and (length(" + MISSING + ") > 0 or ghost('any_invalid'))",
+        "reported_names_are_the_missing_ones": "implies(ghost('reported_missing') is not None, ghost('reported_missing') == " + MISSING + ")",
+    },
+    bounded_note="up to 2 documented headers, up to 2 received headers",
+    replayable=False,
+    max_paths=40000,
 )
 
 LEVEL_TEXT = ("Deductive: status-code verdict (both directions), content-type verdict with wildcards, definition selection and failure plumbing are "
